@@ -51,6 +51,10 @@ ACTIVITIES = {
     "killed_pipe_held": ("import os, subprocess\nfd = channel.gateway._io.outfile.fileno()\nos.set_inheritable(fd, True)\n"
                          "subprocess.Popen(['sleep', '25'], pass_fds=[fd], stdin=subprocess.DEVNULL, stdout=subprocess.DEVNULL, stderr=subprocess.DEVNULL)\n"
                          "channel.send('started')\nchannel.receive()\n"),
+    # the worker cannot start threads any more (process/thread limit reached); the initiator then asks for one more
+    # execution (see main) and disappears
+    "thread_exhaustion": ("import _thread\ndef _no(*a, **k):\n    raise RuntimeError(\"can't start new thread\")\n"
+                          "_thread.start_new_thread = _no\nchannel.send('started')\nchannel.receive()\n"),
     "stopped": "channel.send('started')\nchannel.receive()\n",
     "killed": "channel.send('started')\nchannel.receive()\n",
 }
@@ -120,6 +124,11 @@ def main():
                 chans.append(first)  # the sub-channel whose remote end carries the failing callback
                 first = ch.receive(30)
             assert first == "started"
+            if act == "thread_exhaustion":
+                try:
+                    chans.append(gws[g["id"]].remote_exec("channel.send(1)"))
+                except Exception as e:  # noqa
+                    emit(event="note", msg=f"remote_exec on exhausted worker: {e!r}")
             if act == "inbound_flood":
                 import threading
 
